@@ -139,6 +139,34 @@ pub fn g3() -> Vec<FamGrammar> {
     out
 }
 
+/// G4: grammars whose canonical LR(1) automaton has states with equal cores but different reductions per look-ahead
+/// (the classic LR(1)-but-not-LALR(1) shape and variants): state merging must keep them apart.
+pub fn g4() -> Vec<FamGrammar> {
+    let mut out = vec![];
+    let bodies: Vec<(&str, Value, Value)> = vec![
+        ("cc", seq(vec![s("c"), s("c")]), seq(vec![s("c"), s("c")])),
+        ("c_optc", seq(vec![s("c"), opt(s("c"))]), seq(vec![s("c"), opt(s("c"))])),
+        ("rep", rep1(s("c")), rep1(s("c"))),
+    ];
+    for (bi, (bn, ba, bb)) in bodies.into_iter().enumerate() {
+        for hidden in [false, true] {
+            let (an, bnm) = if hidden { ("_ra", "_rb") } else { ("ra", "rb") };
+            // with hidden rules the two interpretations must still be told apart: wrap them in fields
+            let a = || field("fa", sym(an));
+            let b = || field("fb", sym(bnm));
+            let g = G::new(&format!("g4_{}_{}_{}", bi, bn, hidden as u8))
+                .rule("top", choice(vec![
+                    seq(vec![s("a"), a(), s("d")]), seq(vec![s("b"), b(), s("d")]),
+                    seq(vec![s("a"), b(), s("e")]), seq(vec![s("b"), a(), s("e")]),
+                ]))
+                .rule(an, ba.clone())
+                .rule(bnm, bb.clone());
+            out.push(FamGrammar { id: g.name.clone(), g, alphabet: vec![lit("a"), lit("b"), lit("c"), lit("d"), lit("e")], has_ws_extras: true, kind: "G4", op_table: None });
+        }
+    }
+    out
+}
+
 /// All token sequences over the alphabet of length <= n, shortest first.
 pub fn token_strings(alpha: usize, n: usize) -> Vec<Vec<usize>> {
     let mut out = vec![vec![]];
